@@ -16,7 +16,7 @@ MASKS = ["255.0.0.0", "255.255.0.0", "255.255.255.0", "255.255.255.128", "255.25
          "255.254.0.0", "128.0.0.0"]
 HOSTMASKS = ["0.0.0.255", "0.0.255.255", "0.255.255.255", "0.0.0.3", "127.255.255.255"]
 BADMASKS = ["255.0.255.0", "0.255.0.0", "255.255.255.1", "1.2.3.4"]
-METRICS = [0, 0, 1, 1, 2, 5, -1, 100]
+METRICS = [0, 0, 1, 1, 2, 5, -1, 100, 0.5, 1.5, -0.5]  # halves are exact floats; the model sees 2*metric (order preserved)
 HOPS = ["1.1.1.1", "1.1.1.2", "1.1.1.3", "2.2.2.2"]
 QUERIES = ["10.1.2.3", "10.1.2.200", "10.1.3.9", "10.2.0.1", "192.168.1.5", "172.16.5.4", "8.8.8.8", "0.0.0.0", "255.255.255.255",
            "10.1.2.129", "11.0.0.1", "127.0.0.1"]
@@ -88,8 +88,15 @@ def exhaustive_cases(max_len: int) -> List[dict]:
 
 
 # ------------------------------------------------------------------------------------------ model side
+def m2(x) -> int:
+    """the model's integer metric: twice the float metric (all generated metrics are multiples of 0.5)"""
+    v = x * 2
+    assert float(v).is_integer()
+    return int(v)
+
+
 def route_line(r: dict) -> str:
-    return f"rt-add {r['addr']} {r['mask']} {r['nh']} {r['metric']}"
+    return f"rt-add {r['addr']} {r['mask']} {r['nh']} {m2(r['metric'])}"
 
 
 def model_lines(case: dict) -> List[str]:
@@ -144,9 +151,8 @@ def run_impl(case: dict) -> List[str]:
                 out.append(f"default {best.next_hop_ip_address}")
             else:
                 idx = [i for i, x in enumerate(rt.routes) if x is best]
-                m = best.metric
-                ms = str(int(m)) if float(m).is_integer() else repr(m)
-                out.append(f"route {idx[0] if len(idx) == 1 else idx} {best.address} {best.subnet_mask} {best.next_hop_ip_address} {ms}")
+                out.append(f"route {idx[0] if len(idx) == 1 else idx} {best.address} {best.subnet_mask} {best.next_hop_ip_address} "
+                           f"{m2(best.metric)}")
     return out
 
 
@@ -176,7 +182,7 @@ def oracle(case: dict, answers: List[str]) -> Optional[str]:
                 if cands:
                     _, _, i = min(cands)
                     r = routes[i]
-                    want = f"route {i} {r['addr']} {r['mask']} {r['nh']} {r['metric']}"
+                    want = f"route {i} {r['addr']} {r['mask']} {r['nh']} {m2(r['metric'])}"
                 elif default:
                     want = f"default {default}"
                 else:
